@@ -301,7 +301,7 @@ def check_tetrahedral(run, pkg):
                 okk = None
             dist_t = ops[0][1]
             run.ob("R-SELECTK", fq, "four-nearest", okk, "candidates = the 5 smallest distances (4 neighbours + the particle itself)", " -> ".join(o[0] for o in ops) + f" ; {[p[1][:80] for p in problems]}",
-                   witness=None if okk else "the prefix of argpartition does not hold the 5 smallest distances / not 4 neighbours", loc=loc, sound=True)
+                   witness=None if okk else (problems[0][1] if problems else "the prefix of argpartition does not hold the 5 smallest distances / not 4 neighbours"), loc=loc, sound=True)
             okD = eqv(D, dist_t) if D is not None else None
             run.ob("R-ALIGN", fq, "same-distances", okD, "the norms in cos psi are the distances used for the selection", "", witness=None if okD else "other norms", loc=loc, sound=True)
             inner = is_rowwise_norm(dist_t)
